@@ -13,7 +13,6 @@ package store
 //@ model func isEdge(db *DbSqlite, down string, up string) bool
 //@ model func edgeTomb(db *DbSqlite, down string, up string) float64
 //@ model func rank(db *DbSqlite, id string) int
-//@ model func dbFailed(d *sql.DB) bool
 //@ spec func liveEdge(db *DbSqlite, down string, up string) bool = isEdge(db, down, up) && fmodf(edgeTomb(db, down, up), 2.0) == 0.0
 //@ spec func acyclic(db *DbSqlite) bool = forall d string, u string :: isEdge(db, d, u) ==> 0 <= rank(db, u) && rank(db, u) < rank(db, d)
 
@@ -24,7 +23,7 @@ package store
 //@ extern store.(*DbSqlite).edges(sdb, tx, query, args)
 //@   fresh res0
 //@   modifies state(sdb.db)
-//@   ensures dbFailed(sdb.db) == (old(dbFailed(sdb.db)) || res1 != nil)
+//@   ensures dbFailed(sdb.db) == (old(dbFailed(sdb.db)) || res1 != nil) && commits(sdb.db) == old(commits(sdb.db)) && openTxs(sdb.db) == old(openTxs(sdb.db))
 //@   ensures res1 == nil && query == "SELECT * FROM edges WHERE down=?" && len(args) == 1 && typeIs(args[0], string) ==> (forall k int :: 0 <= k && k < len(res0) ==> res0[k].Down == dyn(args[0], string) && isEdge(sdb, dyn(args[0], string), res0[k].Up) && bits64(findValue(res0[k].Points, "tombstone", "")) == bits64(edgeTomb(sdb, dyn(args[0], string), res0[k].Up)) && hasTomb(res0[k].Points) == edgeDel(sdb, dyn(args[0], string), res0[k].Up))
 //@   ensures res1 == nil && query == "SELECT * FROM edges WHERE down=?" && len(args) == 1 && typeIs(args[0], string) ==> (forall u string :: isEdge(sdb, dyn(args[0], string), u) ==> (exists k int :: 0 <= k && k < len(res0) && res0[k].Up == u))
 
@@ -133,7 +132,6 @@ package store
 // ---- the two write handlers --------------------------------------------------------------------------------
 // Trusted for this property: the database writes themselves (their own contracts belong to C01/C03/C05).
 // nodePoints does not touch the edges table; edgePoints may change it and is assumed to keep it acyclic (C05).
-//@ extern store.(*DbSqlite).nodePoints(sdb, id, points)
 //@ extern store.(*DbSqlite).edgePoints(sdb, nodeID, parentID, points)
 //@   modifies state(sdb)
 //@   ensures acyclic(sdb)
@@ -255,3 +253,85 @@ package store
 //@   modifies state(st.db.db), st.authorizer
 //@   assert [C09] token-only-for-a-matching-live-user: len(nodes) > 0 && credsMatch(nodes[0], emailP.Text, passP.Text) && rootPath(st.db, nodes[0].ID) && user.ID == nodes[0].ID at "st.authorizer.NewToken(user.ID)"
 //@   ensures [C09] at-most-one-token: issuedN(st.authorizer) <= old(issuedN(st.authorizer)) + 1 && (forall i int :: i < old(issuedN(st.authorizer)) ==> issuedFor(st.authorizer, i) == old(issuedFor(st.authorizer, i)))
+
+// ---- the database writes: transaction protocol and refusals (C04, C05) ---------------------------------------------
+// Every table mutation of a write goes through the one transaction begun in the call; every path after Begin ends in
+// exactly one Commit or Rollback; an error is returned without a commit, success means exactly one commit.
+//@ extern data.(Point).CRC(p)
+//@ extern data.(*Points).Collapse(ps)
+//@   modifies ps
+//@   realloc *ps
+//@ func checkPointValues
+//@   props C05
+//@   local points data.Points#1
+//@   ensures [C05] nan-refused: (exists k int :: 0 <= k && k < len(points) && isNaN(points[k].Value)) ==> res0 != nil
+//@   loop 1:
+//@     invariant -1 <= rangeindex && rangeindex < len(points) || rangeindex == -1
+//@     invariant forall k int :: 0 <= k && k <= rangeindex ==> !isNaN(points[k].Value)
+//@     decreases len(points) - rangeindex
+
+//@ func (*DbSqlite).updateHash
+//@   props C04, C05
+//@   local sdb *store.DbSqlite#1
+//@   local tx *sql.Tx#1
+//@   local stmt *sql.Stmt#1
+//@   requires sdb != nil && tx != nil && txOpen(tx) && acyclic(sdb)
+//@   modifies state(sdb.db)
+//@   ensures [C04] txOpen(tx) && dbKept(sdb.db)
+//@   loop 1:
+//@     invariant txOpen(tx) && stmt != nil && stmtTx(stmt) == tx && dbKept(sdb.db)
+//@ func (*DbSqlite).updateHashHelper
+//@   props C04, C05
+//@   local sdb *store.DbSqlite#1
+//@   local tx *sql.Tx#1
+//@   local id string#1
+//@   local cache map[string]uint32#1
+//@   local edges []data.Edge#1
+//@   requires sdb != nil && tx != nil && txOpen(tx) && acyclic(sdb) && cache != nil
+//@   modifies state(sdb.db), cache
+//@   decreases rank(sdb, id)
+//@   ensures [C04] txOpen(tx) && dbKept(sdb.db)
+//@   loop 1:
+//@     invariant -1 <= rangeindex && rangeindex < len(edges) || rangeindex == -1
+//@     invariant txOpen(tx) && dbKept(sdb.db)
+//@     invariant forall k int :: 0 <= k && k < len(edges) ==> isEdge(sdb, id, edges[k].Up)
+//@     modifies state(sdb.db), cache
+//@     decreases len(edges) - rangeindex
+
+//@ func (*DbSqlite).nodePoints
+//@   props C04, C05
+//@   local sdb *store.DbSqlite#1
+//@   local points data.Points#1
+//@   local tx *sql.Tx#1
+//@   local dbPoints data.Points#2
+//@   local dbPointIDs []string#1
+//@   local writePoints data.Points#3
+//@   local writePointIDs []string#2
+//@   local stmt *sql.Stmt#1
+//@   requires sdb != nil && sdb.db != nil && acyclic(sdb)
+//@   modifies state(sdb.db), state(sql.Tx)
+//@   ensures [C04, C05] no-transaction-left-open: openTxs(sdb.db) == old(openTxs(sdb.db))
+//@   ensures [C05] refused-write-commits-nothing: res0 != nil ==> commits(sdb.db) == old(commits(sdb.db))
+//@   ensures [C04] accepted-write-is-committed: res0 == nil ==> commits(sdb.db) == old(commits(sdb.db)) + 1
+//@   ensures [C05] nan-refused: (exists k int :: 0 <= k && k < len(points) && isNaN(points[k].Value)) ==> res0 != nil
+//@   loop 1:
+//@     invariant txOpen(tx) && txDb(tx) == sdb.db && openTxs(sdb.db) == old(openTxs(sdb.db)) + 1 && commits(sdb.db) == old(commits(sdb.db))
+//@     invariant sinceLoop(dbPoints) && sinceLoop(dbPointIDs) && len(dbPoints) == len(dbPointIDs)
+//@     modifies dbPoints, dbPointIDs
+//@   loop 2:
+//@     invariant -1 <= rangeindex && rangeindex < len(points) || rangeindex == -1
+//@     invariant txOpen(tx) && txDb(tx) == sdb.db && openTxs(sdb.db) == old(openTxs(sdb.db)) + 1 && commits(sdb.db) == old(commits(sdb.db))
+//@     invariant sinceLoop(writePoints) && sinceLoop(writePointIDs) && len(writePoints) == len(writePointIDs) && len(dbPoints) == len(dbPointIDs)
+//@     modifies writePoints, writePointIDs
+//@     decreases len(points) - rangeindex
+//@   loop 3:
+//@     invariant -1 <= rangeindex && rangeindex < len(dbPoints) || rangeindex == -1
+//@     invariant len(writePoints) == len(writePointIDs) && len(dbPoints) == len(dbPointIDs)
+//@     invariant refOf(writePoints) == refOf(preloop(writePoints)) || sinceLoop(writePoints)
+//@     invariant refOf(writePointIDs) == refOf(preloop(writePointIDs)) || sinceLoop(writePointIDs)
+//@     modifies writePoints, writePointIDs
+//@     decreases len(dbPoints) - rangeindex
+//@   loop 4:
+//@     invariant -1 <= rangeindex && rangeindex < len(writePoints) || rangeindex == -1
+//@     invariant txOpen(tx) && txDb(tx) == sdb.db && stmt != nil && stmtTx(stmt) == tx && openTxs(sdb.db) == old(openTxs(sdb.db)) + 1 && commits(sdb.db) == old(commits(sdb.db)) && len(writePoints) == len(writePointIDs)
+//@     decreases len(writePoints) - rangeindex
